@@ -210,7 +210,8 @@ theorem processMessage_fuelOut (env : PEnv) (orc : EvalOracles) (expr : Expr) (m
       | none => exact rfl
       | some ms =>
         simp only [afterParse]
-        cases msVerdict env orc expr ms with
+        refine World.All.bind_of_forall _ fun ev => ?_
+        cases evVerdict env orc ms ev with
         | unparsable => exact World.All.bind_of_forall _ fun _ => rfl
         | error => exact World.All.bind_of_forall _ fun _ => rfl
         | interpFail => exact World.All.bind_of_forall _ fun _ => rfl
